@@ -17,7 +17,7 @@
    say where a panic is (un)reachable. *)
 From Coq Require Import ZArith Reals Bool List String.
 From Flocq Require Import Core.
-From SID Require Import Base AltKeyCore AltKey DC12.
+From SID Require Import Base AltKeyCore AltKey AltKeyList DC12.
 Open Scope Z_scope.
 
 (* ---- what the covers mean ---- *)
@@ -253,6 +253,47 @@ Example C12_history_nonvacuous :
   Wire.v_prop (d_sequence (Wire.VL (s1 :: s2 :: nil) :: nil) (Wire.VL (ok :: ok :: nil))) = false /\
   Wire.v_class (d_sequence (Wire.VL (s1 :: s2 :: nil) :: nil) (Wire.VL (ok :: ok :: nil))) = "-"%string /\
   Wire.v_prop (step_verdict s1 ok) = true /\ Wire.v_prop (step_verdict s2 ok) = false.
+Proof. vm_compute. repeat split. Qed.
+
+(* ---- the LIST API transform.ConvertExtendedSpatialIDsToQuadkeysAndAltitudekeys(ids, qZoom, kZoom, E, O), projected to the altitude keys
+   (AltKeyList.v; lid = (hZoom, x, y, vZoom, f); the quadkey part is property C11's). The list model is the per-ID MAP of the single conversion:
+   id_range kz E O i = z2key (f i) (vZoom i) kz E O after the zoom check of the ID — so the key range of an ID does not depend on the other IDs
+   of the list, and any failing ID fails the call. A result cache keyed on less than (f, vZoom) breaks exactly this. ---- *)
+Theorem C12_list_is_the_per_id_map : forall kz E O ids rs,
+  list_ranges kz E O ids = Ok rs <-> Forall2 (fun i r => id_range kz E O i = Ok r) ids rs.
+Proof. exact list_ranges_is_map. Qed.
+Print Assumptions C12_list_is_the_per_id_map.
+Theorem C12_list_err_iff_some_id_errs : forall kz E O ids,
+  list_ranges kz E O ids = Err <-> Exists (fun i => id_range kz E O i = Err) ids.
+Proof. exact list_ranges_err_iff. Qed.
+Print Assumptions C12_list_err_iff_some_id_errs.
+(* the same ID at position n of one list and position m of another list gets the same key range: its own single conversion *)
+Theorem C12_list_range_independent_of_the_other_ids : forall kz E O ids ids' rs rs' n m i,
+  list_ranges kz E O ids = Ok rs -> list_ranges kz E O ids' = Ok rs' ->
+  nth_error ids n = Some i -> nth_error ids' m = Some i ->
+  exists r, nth_error rs n = Some r /\ nth_error rs' m = Some r /\ id_range kz E O i = Ok r.
+Proof. exact list_range_independent. Qed.
+Print Assumptions C12_list_range_independent_of_the_other_ids.
+Theorem C12_list_ranges_meet_spec : forall kz E O ids rs n i r,
+  list_ranges kz E O ids = Ok rs -> nth_error ids n = Some i -> nth_error rs n = Some r ->
+  conv_spec (sid_scale (lv i)) (lf i) (key_scale kz E O) (Ok r) /\ 0 <= lh i <= 35.
+Proof. exact list_ranges_meet_spec. Qed.
+Print Assumptions C12_list_ranges_meet_spec.
+(* the run-time check of the observed groups decides the list-level reading of the property: per tile, every key of the exact cover of every ID
+   is returned, every returned key lies in the widened cover of some ID of that tile, error clauses of conv_spec per ID *)
+Theorem C12_list_checker_sound : forall qz kz E O ids obs, list_prop qz kz E O ids obs = true <-> list_spec qz kz E O ids obs.
+Proof. exact list_prop_sound. Qed.
+Print Assumptions C12_list_checker_sound.
+(* without int64 wrap the list model executed by the dispatch entry is that per-ID map *)
+Theorem C12_list_int64_exact : forall kz E O ids r, list_model64 kz E O ids = Some (r, true) -> r = list_ranges kz E O ids.
+Proof. exact list_model64_exact. Qed.
+Print Assumptions C12_list_int64_exact.
+(* non-vacuity: the same f = 5 at vertical zooms 24 and 22 on one tile: two different ranges; f = 3 at zoom 1 after a valid ID: error *)
+Example C12_list_nonvacuous :
+  list_ranges 23 25 0 ((3, 1, 2, 24, 5) :: (3, 1, 2, 22, 5) :: nil) = Ok ((2, 2) :: (10, 11) :: nil) /\
+  groups ((3, 1, 2, 24, 5) :: (3, 1, 2, 22, 5) :: nil) ((2, 2) :: (10, 11) :: nil) = (0, 2 :: nil) :: (0, 10 :: 11 :: nil) :: nil /\
+  e2qa_ranges 2 2 24 0 ((2, 0, 0, 3, 3) :: (2, 1, 1, 1, 3) :: nil) = Err /\
+  id_range 2 24 0 (2, 0, 0, 3, 3) = Ok (3, 3) /\ id_range 2 24 0 (2, 1, 1, 1, 3) = Err.
 Proof. vm_compute. repeat split. Qed.
 
 (* ---- non-vacuity and regression witnesses ---- *)
